@@ -656,6 +656,17 @@ func TestVerifC04(t *testing.T) {
 					r.Violation("e2e-bare-if-premature-end", fmt.Sprintf("if: %q: %d syntax diagnostics", c.Src, n), c)
 				}
 			}
+		} else if c.E2E == "if-marker-in-literal" {
+			src := "on: push\njobs:\n  a:\n    runs-on: ubuntu-latest\n    steps:\n      - run: echo\n        if: \"" + strings.ReplaceAll(c.Src, "\"", "\\\"") + "\"\n"
+			for k := 0; k < 2; k++ {
+				res := vLint(src, nil)
+				fmt.Printf("replay %d:\n%s\ndiagnostics: %v\n", k, src, vDiagStrings(res.Errs))
+				for _, d := range vDiags(res.Errs) {
+					if d.Kind == "expression" && c04SyntaxRe.MatchString(d.Msg) {
+						r.Violation("e2e-bare-if-marker-in-literal", fmt.Sprintf("if: %q is rejected: %s", c.Src, d.Msg), c)
+					}
+				}
+			}
 		} else if c.E2E != "" {
 			c04E2E(r, c.Src)
 			c04E2E(r, c.Src)
@@ -814,6 +825,37 @@ func TestVerifC04(t *testing.T) {
 				}
 				if n != 1 {
 					r.Violation("e2e-bare-if-premature-end", fmt.Sprintf("if: %q is not a sentence (\"}}\" inside a condition that is not surrounded by ${{ }}) but got %d syntax diagnostics: %v", cond, n, vDiagStrings(res.Errs)), replay)
+				}
+			}
+		}
+	}
+	// (e2) the other direction: the same marker INSIDE a string literal of a condition written
+	// without ${{ }} is part of a sentence (every literal x every place a string can stand)
+	if r.Shard == 0 {
+		lits := []string{"'}}'", "'a}}b'", "'{\"a\":{\"b\":1}}'", "'}} }}'", "'${{ x }}'", "'}'", "'} }'", "'it''s }}'"}
+		shapes := []string{"env.FOO == %s", "%s != env.FOO", "contains(env.FOO, %s)", "startsWith(%s, env.FOO) && success()", "env.FOO == %s || env.BAR == %s", "!(env.FOO == %s)", "format(%s, env.FOO) == 'x'", "fromJSON(%s).a == 1"}
+		for _, lit := range lits {
+			for _, sh := range shapes {
+				cond := strings.ReplaceAll(sh, "%s", lit)
+				src := "on: push\njobs:\n  a:\n    runs-on: ubuntu-latest\n    steps:\n      - run: echo\n        if: \"" + strings.ReplaceAll(cond, "\"", "\\\"") + "\"\n"
+				r.Begin(func() string { return fmt.Sprintf("bare if %q", cond) })
+				res := vLint(src, nil)
+				r.Evaluations++
+				r.Transitions++
+				r.Validated++
+				replay := map[string]any{"src": cond, "e2e": "if-marker-in-literal"}
+				if res.Panic != "" || res.Err != nil {
+					r.Violation("e2e-failure", fmt.Sprintf("bare if %q: panic=%q err=%v", cond, vTrunc(res.Panic, 200), res.Err), replay)
+					continue
+				}
+				if !c04Reference(cond + " }}").accept {
+					r.HarnessError("condition %q is not a sentence by the reference", cond)
+					continue
+				}
+				for _, d := range vDiags(res.Errs) {
+					if d.Kind == "expression" && c04SyntaxRe.MatchString(d.Msg) {
+						r.Violation("e2e-bare-if-marker-in-literal", fmt.Sprintf("if: %q is a sentence (the marker stands inside a string literal) but is rejected: %s", cond, d.Msg), replay)
+					}
 				}
 			}
 		}
